@@ -29,6 +29,7 @@ def run(ctx):
     _shared_r5(ctx)
     _round7(ctx)
     _round8(ctx)
+    _round10(ctx)
 
 
 def _run_main(ctx):
@@ -117,3 +118,10 @@ def _round8(ctx):
     from rules import arms as A
     with ctx.rule('R13.7', 'a new blocked-listener is handed over with a blocking send (never dropped with the caller left waiting) (shared with C09)', floor=1) as r:
         A.include(ctx, r, 'c09', 'R09.3', pick=('set_blocked_tx',))
+
+
+def _round10(ctx):
+    """Rules of other properties that are necessary conditions of this one too (found by seeding round 10: two cooperating sites, indirection)."""
+    from rules import arms as A
+    with ctx.rule('R13.8', "a new listener replaces the old one: the receiving end handed out is the only one of its queue -- never stored, never cloned (shared with C05)", floor=2) as r:
+        A.include(ctx, r, 'c05', 'R05.3', pick=('endpoint-storage', 'endpoints-never-cloned'))
